@@ -10,7 +10,7 @@ from .project import AnalysisError, norm, qualname_of
 
 VERIF = os.path.dirname(os.path.dirname(os.path.abspath(__file__)))
 KNOWN = os.path.join(VERIF, "known_findings.json")
-EVIDENCE_DIR = os.path.join(VERIF, "evidence")
+EVIDENCE_DIR = os.environ.get("TPMSA_EVIDENCE_DIR") or os.path.join(VERIF, "evidence")
 
 PROOF_LEVEL = {"C17", "C18", "C20"}
 
@@ -95,6 +95,10 @@ class Run:
                 return k
         return None
 
+    def new_violations(self):
+        known = self.load_known()
+        return [v for v in self.violations if not self._match_known(v, known.get("open", []))]
+
     # ------------------------------------------------------------------ finish
     def finish(self):
         known = self.load_known()
@@ -121,6 +125,7 @@ class Run:
                 print(f"    path: {v['path']}")
         self._write_evidence(wall, new, listed)
         if new:
+            os.makedirs(EVIDENCE_DIR, exist_ok=True)
             replay = os.path.join(EVIDENCE_DIR, f"{self.pid}.violations.json")
             with open(replay, "w") as fh:
                 json.dump([v for v, _ in new], fh, indent=1)
